@@ -761,6 +761,9 @@ func PhytoOut(g *GlobalVarsMain, l *CropSharedVars, hPath *HFilePath, zeit int, 
 	} else {
 		g.GEHOB = (g.PESUM + SUMPE + g.NFIX - g.WUMAS*g.WUGEH) / g.OBMAS
 	}
+	if g.GEHOB < 0 {
+		g.GEHOB = 0 // crop N smaller than what the roots hold: the shoot concentration bottoms out at zero
+	}
 }
 
 // radia  Strahlunsinterception, Photosynthese und Erhaltungsatmung nach Penning de Vries 1982
